@@ -1008,7 +1008,7 @@ if __name__ == '__main__':
         extra_sources=['Alpaqa/Gen/C12.lean', 'Alpaqa/Model/C12.lean', 'Alpaqa/Proofs/Basic.lean',
                        'Driver/C12.lean'] + ['Alpaqa/Proofs/C12%s.lean' % n for n in (
                            'Layout', 'Seg', 'Compl', 'Vec', 'Forward', 'Penalty', 'Adjoint', 'Lin',
-                           'RicM', 'Riccati', 'Optimal')],
+                           'RicM', 'Riccati', 'Optimal', 'Deriv')],
         harness_name='c12',
         harness_sources=[os.path.join(C.VERIF, 'harness', 'c12.cpp')] + C.repo_lib_sources(
             ['problem/ocproblem.cpp']),
